@@ -6,6 +6,7 @@
 From Coq Require Import QArith ZArith List Bool Arith.
 From LV Require Import Align.DP Align.Calign Align.LibScore Align.Opt Align.OptProofs
   Align.Malign Align.MalignOptProofs Align.LevProofs Align.SelfDist Align.DialignSelf Align.SelfDistShipped.
+From LV Require Import Align.LevNorm.
 From LVGen Require Import Scorers.
 Import ListNotations.
 Local Open Scope Q_scope.
@@ -110,6 +111,16 @@ Proof.
     (conj (edit_dist_sym A B) (edit_dist_triangle A B C)))).
 Qed.
 Print Assumptions C03_edit_dist_metric.
+
+(* the normalised edit distance (edit_dist(..., normalized=True)): Levenshtein distance over the longer length,
+   in [0, 1], 0 exactly for equal sequences; no value for two empty sequences (the Python divides by zero) *)
+Theorem C03_edit_dist_normalised :
+  forall (A B : list Z), A <> [] \/ B <> [] ->
+    exists q, edit_dist_norm A B = Some q /\
+      (q == inject_Z (edit_dist A B) / inject_Z (Z.of_nat (Nat.max (length A) (length B))))%Q /\
+      (0 <= q)%Q /\ (q <= 1)%Q /\ ((q == 0)%Q <-> A = B).
+Proof. exact edit_dist_norm_spec. Qed.
+Print Assumptions C03_edit_dist_normalised.
 
 (* Self-distance: for EVERY shipped sound-class model with a scoring matrix (the list
    [shipped_scorers] and its finite obligation are regenerated from /repo/src/lingpy/data/models/*/matrix
